@@ -60,22 +60,26 @@ def scopeOf (b c : Bytes) : String :=
 def bestScope (scopes : List String) : String :=
   if scopes.contains "dir" then "dir" else if scopes.contains "file" then "file" else "prefix"
 
-/-- scope of the internal paths covering the first offending inode -/
+/-- scope of the internal paths covering the offending inodes: the tightest relation found over
+ALL of them (`dir` before `file` before `prefix`), so that a file below an internal DIRECTORY in an
+archive is not reported under the class of a partial-name neighbour that happens to come first -/
 def internalScope (fs : FS) (cs : ChainSite) (inos : List Nat) : String :=
-  match inos.find? (internalIno fs cs) with
-  | none => "none"
-  | some ino =>
-    bestScope ((fs.filter fun e => decide (e.ino = ino) && fileOfSite cs.site e).flatMap fun e =>
-      (cs.internal.filter (pathMatches (canonURL cs.site e))).map fun b => scopeOf b (canonURL cs.site e))
+  match inos.filter (internalIno fs cs) with
+  | [] => "none"
+  | bad =>
+    bestScope (bad.flatMap fun ino =>
+      (fs.filter fun e => decide (e.ino = ino) && fileOfSite cs.site e).flatMap fun e =>
+        (cs.internal.filter (pathMatches (canonURL cs.site e))).map fun b => scopeOf b (canonURL cs.site e))
 
-/-- scope of the basicauth resources covering the first offending inode -/
+/-- scope of the basicauth resources covering the offending inodes (tightest over all of them) -/
 def authScope (fs : FS) (cs : ChainSite) (creds : Option (Bytes × Bytes)) (inos : List Nat) : String :=
-  match inos.find? (protectedIno fs cs creds) with
-  | none => "none"
-  | some ino =>
-    bestScope ((fs.filter fun e => decide (e.ino = ino) && fileOfSite cs.site e).flatMap fun e =>
-      (cs.auth.filter fun r => ruleCovers r (canonURL cs.site e)).flatMap fun r =>
-        (r.resources.filter (pathMatches (canonURL cs.site e))).map fun b => scopeOf b (canonURL cs.site e))
+  match inos.filter (protectedIno fs cs creds) with
+  | [] => "none"
+  | bad =>
+    bestScope (bad.flatMap fun ino =>
+      (fs.filter fun e => decide (e.ino = ino) && fileOfSite cs.site e).flatMap fun e =>
+        (cs.auth.filter fun r => ruleCovers r (canonURL cs.site e)).flatMap fun r =>
+          (r.resources.filter (pathMatches (canonURL cs.site e))).map fun b => scopeOf b (canonURL cs.site e))
 
 def verdict (fs : FS) (cs : ChainSite) (r : CReq) (obs : CResp) : String :=
   if r.method = FileServe.mOPTIONS then "ok"
